@@ -265,6 +265,8 @@ func scenarios() []scen {
 
 // Phase explores the scenarios of one property; returns whether every job completed.
 func Phase(c *lib.Check, prop string, budgetEach time.Duration, bound int) bool {
+	// library goroutines that take part in the workload-thread phase: syncer, value-appending precommit goroutines
+	vsched.WorkDaemons = []string{"store.OpenWith", "(*ImmuStore).precommit", "(*ImmuStore).preCommitWith"}
 	var scs []sched.Scenario
 	var jobs []sched.Job
 	for _, s := range scenarios() {
